@@ -265,21 +265,24 @@ Definition get_slice (fx : fixes) (i : seqimpl) (v : view) (p : list Z) (fv : fv
 
 (** * add_feature on a view *)
 
+(** repaired add_feature: view coordinates to absolute plus-strand coordinates
+    through [absolute_position(.., include_boundary=True)] *)
+Fixpoint add_conv (v : view) (l : list (Z * Z)) : res (list (Z * Z)) :=
+  match l with
+  | [] => Ok []
+  | (a, b) :: r =>
+      bind (absolute_position v a true) (fun a' =>
+      bind (absolute_position v b true) (fun b' =>
+      bind (add_conv v r) (fun r' =>
+        Ok ((if is_reversed v then (b', a') else (a', b')) :: r'))))
+  end.
+
 (** what is stored in the db, and the spans / strand handed to make_feature *)
 Definition add_feature (fx : fixes) (v : view) (spans : list (Z * Z)) (minus : bool)
   : res (feat * list (Z * Z) * bool) :=
   if fx_add fx then
-    (* absolute plus-strand coordinates through absolute_position, strand flipped on a reversed view *)
-    let conv := fix conv (l : list (Z * Z)) : res (list (Z * Z)) :=
-      match l with
-      | [] => Ok []
-      | (a, b) :: r =>
-          bind (absolute_position v a true) (fun a' =>
-          bind (absolute_position v b true) (fun b' =>
-          bind (conv r) (fun r' =>
-            Ok ((if is_reversed v then (b', a') else (a', b')) :: r'))))
-      end in
-    bind (conv spans) (fun ab =>
+    (* strand flipped and span order reversed on a reversed view *)
+    bind (add_conv v spans) (fun ab =>
       let ab := if is_reversed v then rev ab else ab in
       let dbminus := if is_reversed v then negb minus else minus in
       bind (rel_spans v ab) (fun sp => Ok (mkF ab dbminus, sp, dbminus)))
